@@ -17,7 +17,12 @@ INFO = {
 SIDE_FIELDS = {"asset": [(BALANCE, "asset_shares"), (BANK, "total_asset_shares")], "liability": [(BALANCE, "liability_shares"), (BANK, "total_liability_shares")]}
 
 
+_ords = None
+
+
 def _run(ctx):
+    global _ords
+    _ords = Ordinals()
     prog = ctx.prog
     wrappers = [f for f in prog.fns.values() if (f.info.get("self_adt") or "").endswith("BankAccountWrapper") and f.info["crate"] == "marginfi"]
     resetters = [k for k, kinds in writers_of(prog, BALANCE, "*") if "assign" in kinds]
@@ -108,7 +113,7 @@ def _run(ctx):
                 theirs = any(pv.has_field(o, n) for (o, n) in SIDE_FIELDS[other])
                 if mine or theirs:
                     nsites += 1
-                    ctx.inst("C03.R2", "side-discipline/%s@%s:%s" % (nm, k.split("::")[-1], c.loc.split(":")[-1]), mine and not theirs, "%s is handed %s shares only" % (nm, side), A._pvs(pv), c.loc)
+                    ctx.inst("C03.R2", _ords.key("side-discipline/%s@%s" % (nm, k.split("::")[-1])), mine and not theirs, "%s is handed %s shares only" % (nm, side), A._pvs(pv), c.loc)
     ctx.floor("C03.R2", 8 + 20)
     # ------------------------------------------------------------ R3 fee direction
     PRE = {"name": "calculate_pre_fee_spl_deposit_amount"}
